@@ -16,6 +16,10 @@ ASSUMES = ["grammar.txt lines are structure<TAB>probability; a Markov structure 
            "rescaled products may differ from p/(1-pM) in the last bits, so the stream oracle compares with relative tolerance 1e-12"]
 
 
+import loader_tie as _loader_tie
+TRUSTED = TRUSTED + [_loader_tie.TRUSTED]
+
+
 def load_bases_direct(g):
     return [(b["prob"], list(b["replacements"])) for b in g.base]
 
@@ -274,6 +278,9 @@ def run(ctx):
             corr.append(("load-bases:" + name, False, "model and loader differ on cases %s; first: %s" % (idx, json.dumps(cases[s + idx[0]][1])[:500])))
         else:
             corr.append(("load-bases:" + name, True, ""))
+    # second tie to the source (translator): _load_base_structures re-translated from the Python text equals load_bases
+    import loader_tie
+    corr.append(loader_tie.obligation())
     rule = ("generated rulesets with the Markov structure first / in the middle / last / absent / alone (cyclically), loaded by the "
             "real loader under the four flag combinations; base lists compared bit-exactly with the model and with the direct "
             "restriction oracle, capitalisation tables under all_lower, pre-terminal streams for every third ruleset, and the CLI "
